@@ -13,7 +13,7 @@ from . import core
 
 KERNELS = {
     "quick": ["comp3", "qty3", "qtycw3", "qtytm3", "mod3", "modcw3", "modtm3", "block3", "esc3", "wrap3", "path4"],
-    "thorough": ["comp5", "qty5", "qtycw4", "qtytm4", "mod5", "modcw4", "modtm4", "block5", "esc5", "wrap4", "path5"],
+    "thorough": ["comp4", "qty4", "qtycw4", "qtytm4", "mod4", "modcw4", "modtm4", "block4", "esc4", "wrap4", "path5"],
 }
 # the kernels as data (spec/MC_Parser_<name><n>.cfg are written from this table by `python3 -m vlib.p_parser`):
 # name -> (alphabet, prefix, suffix, extension choices, old-style-metadata choices)
